@@ -1,5 +1,6 @@
 """Translator plug-in (C05, C17): regenerate the one-step transition tables of the line cleaners of
-`codebasin/file_source.py` -> Generated/CCleanTable.lean, Generated/FCleanTable.lean.
+`codebasin/file_source.py` -> Generated/CCleanTable.lean, Generated/FCleanTable.lean, and the one-iteration table of the
+loop of `fortran_file_source` -> Generated/FLoopTable.lean.
 
 Extraction method: **execution** of the real classes from the checkout under `repo` (method (b) of the
 builder task), not a translation of the `if/elif` ladder.  Reason: a table obtained by running the code is
@@ -36,6 +37,17 @@ inner configuration (stack top x scan mode x "verify_continue holds blanks") fol
 character partition is refined together with the representatives until stable: c ~ c' iff they are
 interchangeable (tagged by object identity, so that the probed character is recognised wherever it ends up)
 in every context line p + c + q, p and q of length <= 1 over the representatives, from every start configuration.
+
+The loop of `fortran_file_source` itself (`floop_tables`) is executed as a whole, on real texts: a loop configuration
+(cleaner configuration x pending logical line: empty / blank / code / directive-like, with and without `trailing_space`)
+is reached by a prefix of physical lines found by breadth-first closure, then every physical-line kind is read: one line
+of every class of the step table above (classes as far as the loop can see the result of `process`), directive lines,
+`#` behind `&` / text, a two-line logical line, a blank line.  Nothing of the loop is patched: the file object reports
+every request for a line (`c_file_source` asks for line j + 1 only when the loop is done with line j, so the requests
+delimit the iterations; validated: the observations on a prefix do not depend on what follows), the yielded logical
+lines are snapshotted, the cleaner is a registering subclass (to read `state` / `verify_continue`), and the pending
+logical line is revealed by what is flushed at the end of the file and after the follow-up lines `A` / TAB `A`.  The
+logical lines the real C pass yields for the same text are recorded as the input of the model's step.
 
 The result is cached under tools/gen/.cleaner_cache.json keyed by the SHA-256 of file_source.py, of this script
 and the interpreter version (the executed classes use builtins and itertools only); `VERIF_NO_GEN_CACHE=1`
@@ -596,6 +608,297 @@ def f_lean(h, P, reps, cls_of, starts, rows, silent):
 
 
 # --------------------------------------------------------------------------
+# fortran_file_source: the loop around the cleaner
+# --------------------------------------------------------------------------
+class Feed:
+    """the file object handed to `fortran_file_source`: an iterator over physical lines that reports every request
+    for a line.  `c_file_source` asks for physical line j + 1 only after the Fortran loop has finished with the
+    logical line that ended on line j, so the requests delimit the loop's iterations (validated in `LoopProbe.run`)."""
+
+    def __init__(self, lines, on_request):
+        self.lines = [ln + "\n" for ln in lines]
+        self.i = 0
+        self.on_request = on_request
+
+    def __iter__(self):
+        return self
+
+    def __next__(self):
+        self.on_request()
+        if self.i >= len(self.lines):
+            raise StopIteration
+        self.i += 1
+        return self.lines[self.i - 1]
+
+
+FOLLOW = ["A", "\tA"]  # follow-up lines that reveal the pending logical line (its text, its `trailing_space`)
+
+
+class LoopProbe:
+    """Executes the real `fortran_file_source` on short texts.  Observed: the logical lines it yields — (lines,
+    flushed_line, category is CPP_DIRECTIVE), snapshotted at the moment of the yield — attributed to the physical
+    line during whose processing they were yielded, the cleaner configuration (state stack, verify_continue) between
+    two physical lines (the loop's `fortran_cleaner` is a subclass that registers its instance; nothing else is
+    patched), what is flushed at the end of the file and whether the end of the file raises."""
+
+    def __init__(self, fs, FP):
+        self.fs = fs
+        self.FP = FP  # the FProbe whose state numbering is used
+        self.cache = {}
+
+    def c_lines(self, phys):
+        """the logical lines the real C pass (`c_file_source(directives_only=True)`) yields for the text"""
+        out = []
+        try:
+            for ll in self.fs.c_file_source(iter([ln + "\n" for ln in phys]), directives_only=True):
+                out.append((tuple(ll.lines), ll.flushed_line, ll.category == "CPP_DIRECTIVE"))
+        except Exception as e:  # noqa
+            raise Unsupported(f"c_file_source(directives_only=True) raises on the probe text {phys!r}: {e}")
+        return out
+
+    def run(self, phys):
+        """-> {"marks": [(number of yields so far, cleaner configuration or None)] one per request for a physical line,
+               "yields": [...], "raised": bool}"""
+        key = tuple(phys)
+        if key in self.cache:
+            return self.cache[key]
+        fs = self.fs
+        orig = fs.fortran_cleaner
+        reg = []
+
+        class Cleaner(orig):
+            def __init__(self, *a, **kw):
+                orig.__init__(self, *a, **kw)
+                reg.append(self)
+
+        yields, marks = [], []
+
+        def on_request():
+            if len(reg) > 1:
+                raise Unsupported("fortran_file_source creates more than one fortran_cleaner")
+            cfg = None
+            if reg:
+                cl = reg[0]
+                if not (isinstance(cl.state, list) and all(isinstance(x, str) for x in cl.state)):
+                    raise Unsupported("fortran_cleaner.state is no longer a list of names")
+                cfg = (tuple(cl.state), tuple(cl.verify_continue))
+            marks.append((len(yields), cfg))
+
+        raised = False
+        try:
+            fs.fortran_cleaner = Cleaner
+            g = fs.fortran_file_source(Feed(phys, on_request))
+            try:
+                for ll in g:
+                    yields.append((tuple(ll.lines), ll.flushed_line, ll.category == "CPP_DIRECTIVE"))
+            except Unsupported:
+                raise
+            except Exception:  # noqa
+                raised = True
+        finally:
+            fs.fortran_cleaner = orig
+        if not reg:
+            raise Unsupported("fortran_file_source does not construct `fortran_cleaner`")
+        for y in yields:
+            if not (isinstance(y[1], str) and all(isinstance(n, int) for n in y[0])):
+                raise Unsupported(f"fortran_file_source yields something unexpected: {y!r}")
+        r = {"marks": marks, "yields": yields, "raised": raised}
+        self.cache[key] = r
+        return r
+
+    def ids(self, cfg):
+        return (tuple(self.FP.ids(cfg[0])), tuple(ord(c) for c in cfg[1]))
+
+    def observe(self, pre, kind):
+        """one probe: the physical lines `kind` after the prefix `pre`.
+        -> (entry, successor key)   entry = (raises, yields during the probe's iteration(s), cleaner configuration
+        afterwards, yields at the end of the file, the end of the file raises, yields after the probe when the line
+        "A" follows, the same for the line TAB "A")"""
+        n0, n1 = len(pre), len(pre) + len(kind)
+        A = self.run(pre + kind)
+        if len(A["marks"]) != n1 + 1:
+            if A["raised"] and len(A["marks"]) <= n1:
+                return (True, (), ((), ()), (), False, (), ()), None
+            raise Unsupported(f"fortran_file_source does not read its input line by line ({len(A['marks'])} requests for {n1} lines)")
+        P0 = self.run(pre)
+        # the prefix behaves the same whatever follows (the loop does not look ahead)
+        if A["marks"][: n0 + 1] != P0["marks"][: n0 + 1] or A["yields"][: A["marks"][n0][0]] != P0["yields"][: P0["marks"][n0][0]]:
+            raise Unsupported(f"fortran_file_source looks ahead: the iterations on {pre!r} depend on the following lines {kind!r}")
+        a, b = A["marks"][n0][0], A["marks"][n1][0]
+        out = tuple(A["yields"][a:b])
+        nxt = A["marks"][n1][1]
+        if nxt is None:
+            raise Unsupported("no fortran_cleaner when the first line is read")
+        eof = tuple(A["yields"][b:])
+        revs = []
+        for f in FOLLOW:
+            B = self.run(pre + kind + [f])
+            if len(B["marks"]) != n1 + 2 or B["marks"][: n1 + 1] != A["marks"][: n1 + 1] or B["yields"][:b] != A["yields"][:b]:
+                raise Unsupported(f"fortran_file_source looks ahead: {pre + kind!r} followed by {f!r}")
+            revs.append(tuple(B["yields"][b:]))
+        entry = (False, out, self.ids(nxt), eof, A["raised"], revs[0], revs[1])
+        return entry, self.abstract(nxt, eof, revs)
+
+    def abstract(self, nxt, eof, revs):
+        """what the loop carries into the next iteration, as far as it can matter later: the cleaner configuration and of
+        the pending logical line its category, whether it is empty, its `trailing_space` (decoded from what is flushed
+        at the end of the file / after the follow-up lines; the raw observation if it cannot be decoded)"""
+        if len(eof) > 1:
+            return ("raw", nxt, eof, tuple(revs))
+        if eof:
+            p = eof[0][1]
+        else:
+            t = revs[0][0][1] if revs[0] else None
+            if t is None or not t.endswith("A"):
+                return ("raw", nxt, eof, tuple(revs))
+            p = t[:-1]
+        t2 = revs[1][0][1] if revs[1] else None
+        if t2 == p + "A":
+            trailing = True
+        elif t2 == p + " A":
+            trailing = False
+        else:
+            return ("raw", nxt, eof, tuple(revs))
+        b = self.fs.one_space_line()
+        b.parts = list(p)
+        cat = {"BLANK": 0, "SRC_NONBLANK": 1, "CPP_DIRECTIVE": 2}.get(b.category())
+        if cat is None:
+            raise Unsupported("one_space_line.category")
+        return (self.ids(nxt), cat, p == "", trailing)
+
+
+def loop_shape(fs, e):
+    """what `fortran_file_source` can see of the result of `process(line)`: the entry of the step table reduced to
+    (raises, configuration afterwards, buffer empty, its category, first part is a blank, trailing_space)"""
+    b = fs.one_space_line()
+    b.parts = [chr(c) for c in e[3]]
+    return (e[0], e[1], e[2], len(e[3]) == 0, b.category(), bool(e[3]) and e[3][0] == 32, e[4])
+
+
+def loop_kinds(fs, P, reps, rows, s0, lines):
+    """the physical-line kinds probed from a loop configuration whose cleaner configuration is `s0`: the first line of
+    every class of the step table of `s0` (lines without a backslash that are not blank: the C pass in front handles
+    those), then lines the C pass treats specially: directives (`#`, blank `#`, `#` behind `&` / behind text; `&#&` leaves a
+    pending logical line that looks like a directive), a logical line of two physical lines, a blank line"""
+    other, ws, amp = chr(0), "\t", "&"
+    seen, out = set(), []
+    for ln in lines:
+        if "\\" in ln or all(c.isspace() for c in ln):
+            continue
+        k = loop_shape(fs, rows[(s0, ln)])
+        if k not in seen:
+            seen.add(k)
+            out.append([ln])
+    out += [["#"], [ws + "#"], ["#A"], [other + "#"], [amp + "#"], [amp + ws + "#"], [amp + "#" + amp], ["A\\", "A"], [""]]
+    return out
+
+
+def floop_tables(fs, FT):
+    P, reps, cls_of, starts, rows, silent = FT
+    lines = ["".join(t) for t in f_lines(reps, silent)]
+    L = LoopProbe(fs, P)
+    kinds = {}
+    init = L.run([])
+    if len(init["marks"]) != 1 or init["yields"] or init["raised"] or init["marks"][0][1] is None:
+        raise Unsupported("fortran_file_source on the empty file")
+    key0 = (L.ids(init["marks"][0][1]), 0, True, False)
+    configs = [{"pre": [], "key": key0}]
+    known = {key0}
+    i = 0
+    while i < len(configs):
+        c = configs[i]
+        if isinstance(c["key"][0], str):
+            raise Unsupported(f"the pending logical line after {c['pre']!r} cannot be decoded: {c['key']!r}")
+        cl = c["key"][0]
+        s0 = (tuple(reversed([P.states[k] for k in cl[0]])), tuple(chr(x) for x in cl[1]))
+        if s0 not in starts:
+            raise Unsupported(f"the loop reaches a cleaner configuration outside the step table: {s0}")
+        if s0 not in kinds:
+            kinds[s0] = loop_kinds(fs, P, reps, rows, s0, lines)
+        preC = L.c_lines(c["pre"])
+        c["preC"] = preC
+        c["s0"] = s0
+        c["rows"] = []
+        for kind in kinds[s0]:
+            allC = L.c_lines(c["pre"] + kind)
+            if allC[: len(preC)] != preC:
+                raise Unsupported("c_file_source looks ahead")
+            n1 = len(c["pre"]) + len(kind)
+            for f, ft in zip(FOLLOW, ("A", " A")):
+                if L.c_lines(c["pre"] + kind + [f]) != allC + [((n1 + 1,), ft, False)]:
+                    raise Unsupported(f"the C pass on the follow-up line {f!r}")
+            entry, nk = L.observe(c["pre"], kind)
+            c["rows"].append((kind, allC[len(preC):], entry))
+            if nk is not None and nk not in known:
+                known.add(nk)
+                configs.append({"pre": c["pre"] + kind, "key": nk})
+                if len(configs) > 80 or len(c["pre"]) > 8:
+                    raise Unsupported("more than 80 loop configurations")
+        i += 1
+    return {"P": P, "configs": configs, "kinds": kinds, "starts": starts}
+
+
+def floop_lean(h, T):
+    P = T["P"]
+
+    def pts(xs):
+        return lnat_list(ord(c) for c in xs)
+
+    def ly(y):
+        return f"({lnat_list(y[0])}, {pts(y[1])}, {lb(y[2])})"
+
+    def lys(ys):
+        return "[" + ", ".join(ly(y) for y in ys) + "]"
+
+    def lcfg(c):
+        return f"({lnat_list(c[0])}, {lnat_list(c[1])})"
+
+    def lkey(k):
+        return f"({lcfg(k[0])}, {k[1]}, {lb(k[2])}, {lb(k[3])})"
+
+    def lphys(ls):
+        return "[" + ", ".join(pts(x) for x in ls) + "]"
+
+    def lentry(e):
+        return f"({lb(e[0])}, {lys(e[1])}, {lcfg(e[2])}, {lys(e[3])}, {lb(e[4])}, {lys(e[5])}, {lys(e[6])})"
+
+    L = [
+        "/-! GENERATED by tools/gen/cleaner.py by executing `fortran_file_source` of /repo's working tree from every reachable",
+        "loop configuration on every physical-line kind — do not edit.  No proofs here; `Props/C17Loop.lean` compares the",
+        "hand-written model of the loop (`Model/FSource.lean`, `Model/FLoopCells.lean`) with this table. -/",
+        "namespace CbiVerif.Gen.FLoopTable\n",
+        "/-- a logical line as yielded: (`lines`, `flushed_line` as code points, `category == \"CPP_DIRECTIVE\"`) -/",
+        "abbrev Y := List Nat × List Nat × Bool",
+        "/-- a cleaner configuration: (state stack as numbers of `FCleanTable.stateNames`, top first, `verify_continue`) -/",
+        "abbrev K := List Nat × List Nat",
+        "/-- what the loop carries into its next iteration: (cleaner configuration, category of the pending logical line",
+        "    (0 BLANK, 1 SRC_NONBLANK, 2 CPP_DIRECTIVE), it is empty, its `trailing_space`) -/",
+        "abbrev Key := K × Nat × Bool × Bool",
+        "/-- one probe: (an exception escapes the iteration, logical lines yielded while the probe's physical lines are",
+        "    processed, cleaner configuration afterwards, logical lines yielded when the file ends there, the end of the file",
+        "    raises, logical lines yielded after the probe when the line `A` follows (end of file included), the same for",
+        "    the line TAB `A`) -/",
+        "abbrev Entry := Bool × List Y × K × List Y × Bool × List Y × List Y\n",
+        "/-- the physical-line kinds (lists of physical lines, code points) probed for a cleaner configuration -/",
+        "def kinds : List (K × List (List (List Nat))) :=\n  ["
+        + ",\n   ".join(f"({lcfg((P.ids(s0[0]), [ord(c) for c in s0[1]]))}, [" + ", ".join(lphys(k) for k in ks) + "])"
+                        for s0, ks in T["kinds"].items()) + "]",
+    ]
+    for i, c in enumerate(T["configs"]):
+        rows = ",\n   ".join(f"({lphys(kind)}, {lys(cs)}, {lentry(e)})" for kind, cs, e in c["rows"])
+        L.append("/-- after the physical lines " + repr(c["pre"]).replace("-/", "- /") + " -/")
+        L.append(f"def rows{i} : List (List (List Nat) × List Y × Entry) :=\n  [{rows}]")
+    L += [
+        "/-- `((physical lines that lead to the configuration, the logical lines the C pass yields for them, the configuration),",
+        "    [(probe: physical lines, the logical lines the C pass yields for them, observation)])` -/",
+        "def configs : List ((List (List Nat) × List Y × Key) × List (List (List Nat) × List Y × Entry)) :=\n  ["
+        + ",\n   ".join(f"(({lphys(c['pre'])}, {lys(c['preC'])}, {lkey(c['key'])}), rows{i})" for i, c in enumerate(T["configs"])) + "]",
+        "\nend CbiVerif.Gen.FLoopTable",
+    ]
+    return "\n".join(L) + "\n"
+
+
+# --------------------------------------------------------------------------
 # Lean output helpers
 # --------------------------------------------------------------------------
 def lb(b):
@@ -721,7 +1024,9 @@ def generate(repo, h):
     obs = c_line_table(fs, P, reps)
     cat, join = buffer_tables(fs, reps)
     out = {"CCleanTable.lean": c_lean(h, P, states, reps, cls_of, step, newline, c_line_lean(P, reps, obs, cat, join))}
-    out["FCleanTable.lean"] = f_lean(h, *f_tables(fs))
+    FT = f_tables(fs)
+    out["FCleanTable.lean"] = f_lean(h, *FT)
+    out["FLoopTable.lean"] = floop_lean(h, floop_tables(fs, FT))
     try:
         CACHE.write_text(json.dumps({"key": key, "out": out}))
     except OSError:
@@ -746,3 +1051,9 @@ def f_data(repo):
     return {"fs": fs, "P": P, "reps": reps, "cls_of": cls_of, "starts": starts, "rows": rows, "silent": silent,
             "lines": ["".join(t) for t in f_lines(reps, silent)],
             "c": {"P": CP, "reps": creps, "cls_of": ccls_of, "step": cstep, "newline": cnewline}}
+
+
+def loop_data(repo):
+    """the loop table of `fortran_file_source` as plain data, for the harness' diff"""
+    fs = load_file_source(repo)
+    return floop_tables(fs, f_tables(fs))
